@@ -1,6 +1,7 @@
 package main
 
 import (
+	"strconv"
 	"bytes"
 	"fmt"
 	"math"
@@ -367,6 +368,12 @@ func (g *rowGen) scalar(v reflect.Value, tag, path string, row int) {
 			}
 		}
 		bits := v.Type().Bits()
+		if w := tagArg(tag, "int"); w != "" {
+			// a wider Go integer mapped to a narrower column: values stay within the column's range
+			if n, err := strconv.Atoi(w); err == nil && n < bits {
+				bits = n
+			}
+		}
 		if bits < 64 {
 			x = x << (64 - bits) >> (64 - bits)
 		}
